@@ -190,6 +190,13 @@ def judge(case) -> Verdict:
         split = validate_translation(v, items, meta, list(grp.items), "ios", detail, "acegroup")
     else:
         acl = A.build_acl(acl_case)
+        if case.get("tail"):
+            # a plain entry appended IN PLACE after the blocks of a grouped ACL keeps its place (last line)
+            tail = {"t": "ace", "rec": case["tail"]}
+            G.validate_rec(tail["rec"], "ios")
+            acl.append(A.build_ace(tail["rec"], "ios"))
+            items = list(items) + [tail]
+            v.label("appended-after-blocks")
         objs = list(A.flat_items(acl.items))
         if len(objs) != len(items):
             raise Invalid()
@@ -230,9 +237,14 @@ def case_st(draw, tier):
         twin = dict(draw(st.sampled_from(expected_run(src["rec"]))))
         acl["items"].insert(draw(st.integers(0, len(acl["items"]))), {"t": "ace", "rec": twin})
     level = draw(st.sampled_from(["ace", "acegroup", "acl", "acl", "platform", "platform"]))
+    if level == "ace" and not any(it["t"] == "ace" for it in acl["items"]):
+        level = "acl"
     if level in ("ace", "acegroup"):
         acl["group_by"] = ""
-    return {"acl": acl, "level": level, "pick": draw(st.integers(0, 7))}
+    case = {"acl": acl, "level": level, "pick": draw(st.integers(0, 7))}
+    if level in ("acl", "platform") and acl["group_by"] and draw(st.booleans()):
+        case["tail"] = G.to_native(draw(G.ace_st("ios", kmax=2, noise=False, seq=False, protos=PORTY)), "ios")
+    return case
 
 
 SUBS = [Sub("split", judge, strategy=case_st, quick=2500, thorough=80000, shards_thorough=48)]
